@@ -570,3 +570,51 @@ WORKLOADS.update(
         "atc_misc": (draw_atc_params, wl_atc_misc),
     }
 )
+
+
+def draw_misc_params(rng):
+    return {"n": rng.choice([1, 2, 3, 7, 16, 33, 100]), "nctrl": rng.choice([1, 4, 9]), "nfeat": rng.choice([1, 3, 5]), "natm": rng.choice([1, 2, 3, 5, 9]), "ngrids": rng.choice([1, 10, 57, 300]), "dseed": rng.below(10**6)}
+
+
+def wl_misc_direct(p):
+    """exported entry points with a parallel region but no Python caller in this version"""
+    import ciderpress.dft.plans  # noqa: F401
+    from ciderpress.lib import load_library
+
+    lib = load_library("libmcider")
+    r = np.random.default_rng(p["dseed"])
+    out = {}
+    n, nc, nf = p["n"], p["nctrl"], p["nfeat"]
+    # evaluate_se_kernel_spin_v2: spin-interleaved layout (n, 2, nfeat)
+    xin = np.ascontiguousarray(r.normal(size=(n, 2, nf)))
+    xc = np.ascontiguousarray(r.normal(size=(nc, 2, nf)))
+    al = r.normal(size=nc)
+    ex = np.abs(r.normal(size=nf)) + 0.2
+    res = np.zeros(n)
+    dres = np.zeros((n, 2, nf))
+    lib.evaluate_se_kernel_spin_v2(_vp(res), _vp(dres), _vp(xin), _vp(xc), _vp(al), _vp(ex), ctypes.c_int(n), ctypes.c_int(nc), ctypes.c_int(nf))
+    out["spin_v2.res"] = res
+    out["spin_v2.dres"] = dres
+    # contract_grad_terms_old: grid points grouped by atom through ga_loc
+    natm, ng = p["natm"], p["ngrids"]
+    cuts = np.sort(r.integers(0, ng + 1, natm - 1)) if natm > 1 else np.zeros(0, dtype=int)
+    ga_loc = np.ascontiguousarray(np.concatenate([[0], cuts, [ng]]).astype(np.int32))
+    f_g = r.normal(size=ng)
+    exc = np.zeros((natm, 3))
+    for v in range(3):
+        lib.contract_grad_terms_old(_vp(exc), _vp(f_g), ctypes.c_int(natm), ctypes.c_int(int(r.integers(0, natm))), ctypes.c_int(v), ctypes.c_int(ng), _vp(ga_loc))
+    out["grad_old"] = exc
+    # serial twin of the parallel gradient contraction, same inputs as the package passes
+    atm_g = np.ascontiguousarray(r.integers(0, natm, ng).astype(np.int32))
+    exc2 = np.zeros((natm, 3))
+    exc3 = np.zeros((natm, 3))
+    a = int(r.integers(0, natm))
+    for v in range(3):
+        lib.contract_grad_terms_parallel(_vp(exc2), _vp(f_g), ctypes.c_int(natm), ctypes.c_int(a), ctypes.c_int(v), ctypes.c_int(ng), _vp(atm_g))
+        lib.contract_grad_terms_serial(_vp(exc3), _vp(f_g), ctypes.c_int(natm), ctypes.c_int(a), ctypes.c_int(v), ctypes.c_int(ng), _vp(atm_g))
+    out["grad_parallel"] = exc2
+    out["grad_serial"] = exc3
+    return out
+
+
+WORKLOADS["misc_direct"] = (draw_misc_params, wl_misc_direct)
